@@ -208,7 +208,7 @@ def check_case(case):
     sctx = sched.SchedCtx(env)
     q = p
     for step in case.get("steps", []):
-        q2, outcome, desc = sched.apply_step(q, step, sctx)
+        q2, outcome, desc = sched.apply_step_excl(PROP, q, step, sctx)
         if outcome != "accepted":
             continue
         q = q2
